@@ -129,6 +129,17 @@ def toy2_class():
             return (self.D * (T ** 2 - self.T0 ** 2) * phi ** 2 - self.E * T * phi ** 3 + self.lam / 4 * phi ** 4
                     - self.a * T ** 4 + self.ms2 / 2 * s ** 2 + self.ls / 4 * s ** 4 + self.kap / 2 * phi ** 2 * s ** 2)
 
+        # closed forms for the identity labelling (perm=(0,1), signs=(1,1), shift=(0,0)): the second field is a spectator, 0 in both phases
+        def grad(self, x, T):
+            phi, s = x[0], x[1]
+            return np.array([2 * self.D * (T ** 2 - self.T0 ** 2) * phi - 3 * self.E * T * phi ** 2 + self.lam * phi ** 3 + self.kap * phi * s ** 2,
+                             self.ms2 * s + self.ls * s ** 3 + self.kap * phi ** 2 * s])
+
+        def hess(self, x, T):
+            phi, s = x[0], x[1]
+            return np.array([[2 * self.D * (T ** 2 - self.T0 ** 2) - 6 * self.E * T * phi + 3 * self.lam * phi ** 2 + self.kap * s ** 2, 2 * self.kap * phi * s],
+                             [2 * self.kap * phi * s, self.ms2 + 3 * self.ls * s ** 2 + self.kap * phi ** 2]])
+
     return Toy2
 
 
@@ -419,3 +430,15 @@ class BagEOS:
 
     def alpha(self, T):
         return (self.eHighT(T) - self.eLowT(T) - (self.pHighT(T) - self.pLowT(T)) / self.csqLowT(T)) / 3 / self.wHighT(T)
+
+
+def template_from(alN, psiN, cb2, cs2, Tn=1.0, ap=3.0):
+    """BagEOS (template form) with prescribed transition strength alpha_n, enthalpy ratio psi_n and sound speeds (cb2 broken, cs2 symmetric)."""
+    from scipy.optimize import brentq
+    mu, nu = 1 + 1 / cs2, 1 + 1 / cb2
+    wH = mu * ap / 3 * Tn ** mu
+    am = 3 * psiN * wH / (nu * Tn ** nu)
+    scale = wH
+    eps = brentq(lambda e: float(BagEOS(ap=ap, am=am, eps=e, mu=mu, nu=nu, Tn=Tn).alpha(Tn)) - alN, -10 * scale, 10 * scale)
+    return BagEOS(ap=ap, am=am, eps=eps, mu=mu, nu=nu, Tn=Tn)
+
